@@ -1,6 +1,7 @@
 package main
 
 import (
+	"unicode/utf8"
 	"fmt"
 	"go/types"
 )
@@ -253,4 +254,88 @@ func (m *Machine) deepEqual(s *State, a, b Value, depth int) *Term {
 		return c.Bool(b == nil)
 	}
 	return c.Bool(false)
+}
+
+// pbInvalidUTF8 reports whether a message value holds a CONCRETE string (field, repeated element, map key or
+// value, also inside sub-messages and oneof wrappers) that is not valid UTF-8. The standard protobuf-go codec
+// (proto.Marshal / proto.Unmarshal / MarshalOptions.Marshal) refuses proto3 string fields with invalid UTF-8;
+// the vtprotobuf codec used by the gRPC layer and the WAL does not check. Strings with symbolic bytes are taken
+// to be valid (stated as a stub).
+func (m *Machine) pbInvalidUTF8(s *State, t types.Type, v Value, depth int) bool {
+	if depth > 32 || v == nil {
+		return false
+	}
+	switch u := t.Underlying().(type) {
+	case *types.Basic:
+		if u.Kind() != types.String {
+			return false
+		}
+		sv, ok := v.(StrV)
+		if !ok || sv.box != nil {
+			return false
+		}
+		bs := make([]byte, 0, len(sv.b))
+		for _, bt := range sv.b {
+			if !bt.konst {
+				m.stubs["std protobuf codec: strings with symbolic bytes assumed valid UTF-8"]++
+				return false
+			}
+			bs = append(bs, byte(bt.cv))
+		}
+		return !utf8.Valid(bs)
+	case *types.Pointer:
+		p, ok := v.(Ptr)
+		if !ok || p.obj == 0 {
+			return false
+		}
+		return m.pbInvalidUTF8(s, u.Elem(), s.load(p), depth+1)
+	case *types.Struct:
+		sv, ok := v.(StructV)
+		if !ok || len(sv.f) != u.NumFields() {
+			return false
+		}
+		for i := 0; i < u.NumFields(); i++ {
+			if !u.Field(i).Exported() {
+				continue
+			}
+			if m.pbInvalidUTF8(s, u.Field(i).Type(), sv.f[i], depth+1) {
+				return true
+			}
+		}
+	case *types.Slice:
+		sl, ok := v.(SliceV)
+		if !ok || sl.obj == 0 {
+			return false
+		}
+		if b, isB := u.Elem().Underlying().(*types.Basic); isB && b.Kind() == types.Uint8 {
+			return false // bytes fields are not checked
+		}
+		for i := 0; i < sl.len; i++ {
+			if m.pbInvalidUTF8(s, u.Elem(), m.sliceElem(s, sl, i), depth+1) {
+				return true
+			}
+		}
+	case *types.Map:
+		p, ok := v.(Ptr)
+		if !ok || p.obj == 0 {
+			return false
+		}
+		mv, ok := s.load(p).(MapV)
+		if !ok {
+			return false
+		}
+		for _, e := range mv.e {
+			if m.pbInvalidUTF8(s, u.Key(), e.k, depth+1) || m.pbInvalidUTF8(s, u.Elem(), e.v, depth+1) {
+				return true
+			}
+		}
+	case *types.Interface:
+		// oneof wrapper
+		iv, ok := v.(IfaceV)
+		if !ok || iv.typ == nil || iv.v == nil {
+			return false
+		}
+		return m.pbInvalidUTF8(s, iv.typ, iv.v, depth+1)
+	}
+	return false
 }
